@@ -1,5 +1,6 @@
 import WitnessVerif.Proofs.CoreRun
 import WitnessVerif.Proofs.BytesRun
+import WitnessVerif.Props.C05
 /-
 C01 — everything the witness cosigns for a log is one append-only history.
 `Core.Ext H e a b` ("b extends a"): sizes do not decrease, equal sizes have equal roots, and if `b`
@@ -92,5 +93,33 @@ theorem C01_no_split_view_bytes (cfg : Cfg) (e : Bytes) (hinj : M.Inj cfg.H) (id
   have hp := (C01_append_only_bytes cfg e hinj id l hl reqs s).1
   have := List.pairwise_iff_getElem.1 hp i j (by omega) hj hij
   exact this.2.2 D hD hr hpos
+
+end C01
+
+namespace C01
+open Wit Lin
+
+/-- C01 under concurrency (in-memory store): for any number of concurrent updates of one log and any
+    interleaving of their storage calls, the requests that got an answer other than a storage conflict
+    were, in the linearisation order, answered exactly as the sequential witness answers them, and the
+    checkpoints cosigned along that order are pairwise append-only — no schedule makes the witness cosign
+    both sides of a split view. -/
+theorem C01_no_split_view_concurrent (cfg : Cfg) (e : Bytes) (hinj : M.Inj cfg.H) (id : Bytes) (l : LogInfo)
+    (hl : cfg.find id = some l) (reqs : List Req) (hall : ∀ (i : Nat) (q : Req), reqs[i]? = some q → q.logID = id)
+    (s0 : Option Bytes) (sched : List Nat) :
+    let fin := runSched (C05.decOf cfg) reqs { store := s0, pcs := reqs.map (fun _ => .idle), lin := [] } sched
+    let order := fin.lin.filterMap (fun p => reqs[p.1]?)
+    let s : Store := match s0 with | some b => [(id, b)] | none => []
+    (run cfg s order).2 = fin.lin.map (·.2) ∧
+    (∀ i r, fin.pcs[i]? = some (.done (.ok r)) → (i, r) ∈ fin.lin) ∧
+    (acceptedFor cfg l id s order).Pairwise (Core.Ext cfg.H e) := by
+  intro fin order s
+  have hlin := C05.C05_linearizable_inmem cfg reqs s0 sched
+  have hs : s.get id = s0 := by
+    cases s0 with
+    | none => simp [s, Store.get]
+    | some b => simp [s, Store.get]
+  have hrun := C05.replays_is_run cfg id reqs hall s0 _ _ hlin.1 s hs
+  exact ⟨hrun.1, hlin.2.1, (C01_append_only_bytes cfg e hinj id l hl order s).1⟩
 
 end C01
